@@ -2,7 +2,7 @@
     together with the release bookkeeping (Server/Release.v) and compares what the model predicts with what
     was observed.  Executable definitions only. *)
 From Coq Require Import List ZArith String Bool Arith.
-From Thunder Require Import Lib.Json DiffMerge.Model Server.Model Server.Spec Server.Release Server.Queries.
+From Thunder Require Import Lib.Json DiffMerge.Model Server.Model Server.Spec Server.Release Server.Queries Server.Iface.
 Import ListNotations.
 Open Scope string_scope.
 Open Scope list_scope.
@@ -70,27 +70,38 @@ Definition logev_eqb (a b : logev) : bool :=
     position of the first label that is not enabled / whose `Previous` differs. *)
 Inductive replay_res := RDone (s : state) (rs : rstate) | RStuck (pos : nat) | RPrev (pos : nat) | RQuery (pos : nat).
 
+(** `initial` as the implementation's computation saw it: what StartExecution was told (server.go:173: the
+    variable; :311: always true for a mutation) and ComputationInput.IsInitialComputation (the variable in both). *)
+Definition init_ok (r : runner) (i : option (bool * bool)) : bool :=
+  match i with
+  | None => true
+  | Some (logger, mw) =>
+      Bool.eqb mw (r_initial r)
+      && Bool.eqb logger (match r_kind r with KSub => r_initial r | KMut => true end)
+  end.
+
 (** [toks]: one query token per label (see Server/Queries.v; 0 where it does not matter). *)
 Fixpoint replay (cfg : config) (s : state) (rs : rstate) (qs : qstate) (pos : nat)
-         (h : list (label * option json)) (toks : list nat) : replay_res :=
+         (h : list (label * option json)) (toks : list nat) (inits : list (option (bool * bool))) : replay_res :=
   match h with
   | [] => RDone s rs
   | (l, p) :: t =>
       let tok := hd 0 toks in
       let prev_ok :=
-          match l, p with
-          | LRun rid _, Some pv =>
+          match l with
+          | LRun rid _ =>
               match st_runners s rid with
-              | Some r => json_eqb (norm (r_prev r)) pv
+              | Some r => match p with Some pv => json_eqb (norm (r_prev r)) pv | None => true end
+                          && init_ok r (hd None inits)
               | None => true
               end
-          | _, _ => true
+          | _ => true
           end in
       if prev_ok
       then match stepR cfg (s, rs) l with
            | Some (s', rs') =>
                match qeffect s s' l tok qs with
-               | Some qs' => replay cfg s' rs' qs' (S pos) t (tl toks)
+               | Some qs' => replay cfg s' rs' qs' (S pos) t (tl toks) (tl inits)
                | None => RQuery pos
                end
            | None => RStuck pos
@@ -101,6 +112,7 @@ Fixpoint replay (cfg : config) (s : state) (rs : rstate) (qs : qstate) (pos : na
 Record case := mk_case {
   k_cfg : config;
   k_labels : list (label * option json);
+  k_inits : list (option (bool * bool)); (* per label: for a run completion, `initial` as (StartExecution, the middlewares) saw it *)
   k_toks : list nat;                  (* query token per label: of the message for subscribe / mutate, of the query
                                          the computation executed for a run completion *)
   k_out : list obs_env;               (* every WriteJSON, in order *)
@@ -108,20 +120,31 @@ Record case := mk_case {
   k_ids : list nat;                   (* ids used in this case *)
   k_clients : list (nat * json);      (* (rerunner, state of the merge.ts client after folding its updates) *)
   k_live : list nat;                  (* ids the implementation still had subscribed at the end (none after close) *)
-  k_released : list nat               (* resources whose Cleanup callback ran (each listed as often as it ran) *)
+  k_released : list nat;              (* resources whose Cleanup callback ran (each listed as often as it ran) *)
+  k_rx : list (nat * list rxev)       (* per rerunner: what the hooks in reactive/rerunner.go reported (publish / failed /
+                                         retry / stop.mark with their flags), in order; one entry per rerunner created *)
 }.
 
 Definition same_set (l1 l2 : list nat) : bool :=
   Nat.eqb (List.length l1) (List.length l2)
   && forallb (fun x => existsb (Nat.eqb x) l2) l1 && forallb (fun x => existsb (Nat.eqb x) l1) l2.
 
-(** Component codes: 1 a label is not enabled in the model; 2 `Previous` differs; 3 envelopes differ;
+(** Component codes: 1 a label is not enabled in the model; 2 `Previous` or `initial` (as told to StartExecution / the middlewares) differs; 3 envelopes differ;
     4 logger calls differ (per id); 5 merge.ts client state differs from the model's fold;
     6 pending close tasks or pending reply left at the end / live ids differ;
     7 the resources released (Cleanup calls) differ from the model's;
-    8 a computation executed a query (text, variables) other than the one its rerunner was created with. *)
+    8 a computation executed a query (text, variables) other than the one its rerunner was created with;
+    9 what the reactive package reported at the observation points of a rerunner (Server/Iface.v) differs from what
+      the history implies: exactly for a rerunner the history has stopped, up to one missing last event otherwise;
+      every rerunner the model created must be reported. *)
+Definition rx_ok (c : case) (s : state) : bool :=
+  let t := iface_trace (k_cfg c) init (map fst (k_labels c)) in
+  forallb (fun p => let pred := events_of (fst p) t in
+                    if stopped_in s (fst p) then rx_list_eqb pred (snd p) else rx_prefix1 (snd p) pred) (k_rx c)
+  && forallb (fun rid => existsb (fun p => Nat.eqb (fst p) rid) (k_rx c)) (seq 0 (st_next s)).
+
 Definition check_case (c : case) : list nat :=
-  match replay (k_cfg c) init rinit [] 0 (k_labels c) (k_toks c) with
+  match replay (k_cfg c) init rinit [] 0 (k_labels c) (k_toks c) (k_inits c) with
   | RStuck _ => [1]
   | RPrev _ => [2]
   | RQuery _ => [8]
@@ -132,7 +155,8 @@ Definition check_case (c : case) : list nat :=
       (if forallb (fun p => json_eqb (norm (client_state (fst p) s)) (snd p)) (k_clients c) then [] else [5]) ++
       (if forallb (fun id => has_id id (st_subs s)) (k_live c)
           && Nat.eqb (List.length (st_subs s)) (List.length (k_live c)) then [] else [6]) ++
-      (if same_set (rs_released rs) (k_released c) then [] else [7])
+      (if same_set (rs_released rs) (k_released c) then [] else [7]) ++
+      (if rx_ok c s then [] else [9])
   end.
 
 Fixpoint mismatches_from_sparse (_ : nat) (cs : list (nat * case)) : list (nat * list nat) :=
@@ -146,7 +170,7 @@ Fixpoint mismatches_from_sparse (_ : nat) (cs : list (nat * case)) : list (nat *
 
 (** Position of the first problem of a case, for debugging a mismatch by hand. *)
 Definition where_stuck (c : case) : option nat :=
-  match replay (k_cfg c) init rinit [] 0 (k_labels c) (k_toks c) with
+  match replay (k_cfg c) init rinit [] 0 (k_labels c) (k_toks c) (k_inits c) with
   | RStuck p | RPrev p | RQuery p => Some p
   | RDone _ _ => None
   end.
